@@ -21,6 +21,8 @@ POOL = [
     ("[]", ("seq", 0)), ("[1]", ("seq", 1)), ("[0x1]", ("seq", 1)), ("[2]", ("seq", 1)), ("[1, 2]", ("seq", 2)), ("[\"a\"]", ("seq", 1)),
     ("[[1]]", ("seq", 1)), ("[1, \"a\"]", ("seq", 2)), ("[\"a\", 1]", ("seq", 2)), ("[T_CONST]", ("seq", 1)), ("[[], 1]", ("seq", 2)),
     ("0 1 aset", ("aset",)), ("0 2 aset", ("aset",)), ("1 2 aset", ("aset",)), ("0 0 aset", ("aset",)), ("0 1 aset 1 2 aset add", ("aset",)),
+    # properly nested and overlapping ranges with different starts
+    ("10 30 aset", ("aset",)), ("20 25 aset", ("aset",)), ("21 28 aset", ("aset",)), ("10 12 aset 20 25 aset add", ("aset",)),
 ]
 WORDS = ["?lt", "?gt", "?eq", "?ne", "?le", "?ge", "!lt", "!gt", "!eq", "!ne", "!le", "!ge"]
 INFIX = {"==": "?eq", "!=": "?ne", "<": "?lt", ">": "?gt", "<=": "?le", ">=": "?ge"}
